@@ -43,10 +43,19 @@ def _roundtrip(E, x, tag):
 def save_load_cores(E, s):
     x, xc = tt_input(E, 'x', s['N'], s['R'], s['dtype'], s.get('M'))
     if s.get('sliced'):
-        # object produced by slicing: non-contiguous core views
-        key = tuple([slice(0, None, 2)] + [slice(None)] * (len(s['N']) - 1))
-        if 'M' in s:
-            key = key + key
+        # object produced by slicing: non-contiguous core views / views at a non-zero storage offset
+        if s['sliced'] == 'offset':
+            key = tuple(slice(1, None) if n >= 2 else slice(None) for n in s['N'])
+            if 'M' in s:
+                key = tuple(slice(1, None) if m >= 2 else slice(None) for m in s['M']) + key
+        elif s['sliced'] == 'strided':
+            key = tuple(slice(None, None, 2) for n in s['N'])
+            if 'M' in s:
+                key = key + key
+        else:
+            key = tuple([slice(0, None, 2)] + [slice(None)] * (len(s['N']) - 1))
+            if 'M' in s:
+                key = key + key
         x = x[key]
     if s.get('transposed'):
         x = x.t()
@@ -77,6 +86,13 @@ def save_load_rounded(E, s):
 def copies(E, s):
     tn = E.tn
     x, xc = tt_input(E, 'x', s['N'], s['R'], s['dtype'], s.get('M'))
+    if s.get('presliced'):
+        # the object being copied is itself a view: ranges starting at a non-zero index / strided ranges in every mode
+        key = tuple(slice(1, None) if n >= 2 else slice(None) for n in s['N']) if s['presliced'] == 'offset' else tuple(slice(None, None, 2) for n in s['N'])
+        if 'M' in s:
+            key = tuple(slice(1, None) if m >= 2 else slice(None) for m in s['M']) + key if s['presliced'] == 'offset' else tuple(slice(None, None, 2) for m in s['M']) + key
+        x = x[key]
+        xc = list(x.cores)
     xd = dense(E, xc)
     op = s['op']
     if op == 'clone':
@@ -107,6 +123,6 @@ def copies(E, s):
         E.eq('value', dense(E, y.cores), xd)
     E.true('new_object', y is not x and y.cores is not x.cores)
     if op == 'clone':
-        y.cores[0][...] = 0
-        y.cores[-1][...] = 0
+        for c in y.cores:
+            c[...] = 0
         E.eq('no_shared_storage', dense(E, x.cores), xd)
